@@ -11,9 +11,13 @@ pub mod c09;
 pub mod c10;
 pub mod recs;
 pub mod c20;
+pub mod c13;
+pub mod c11;
 pub mod src;
-pub mod c02;
-pub mod probe;
+pub mod fqk;
+pub mod fak;
+pub mod libk;
+pub mod c12;
 
 #[cfg(not(kani))]
 pub fn registry() -> Vec<(&'static str, fn(&mut nd::TapeNd))> {
@@ -21,6 +25,14 @@ pub fn registry() -> Vec<(&'static str, fn(&mut nd::TapeNd))> {
     v.extend(c09::registry());
     v.extend(c10::registry());
     v.extend(c20::registry());
-    v.extend(c02::registry());
+    v.extend(c13::registry());
+    v.extend(c11::registry());
+    v.extend(fqk::registry());
+    v.extend(fak::registry());
+    v.extend(fak::registry2());
+    v.extend(fak::registry3());
+    v.extend(fqk::registry2());
+    v.extend(libk::registry());
+    v.extend(c12::registry());
     v
 }
